@@ -349,7 +349,7 @@ func c48Read(r *rep.Report, rnd *rand.Rand, path string, gitOK bool, gitDir stri
 	// (the report keeps 25 per signature) in file order, so that the set of reported signatures does not depend on the seed.
 	budget := 500
 	if rep.Thorough() {
-		budget = 6000
+		budget = 3500
 	}
 	sigOf := func(c *cs) string {
 		tags := append([]string{}, c.row.Tags...)
@@ -720,7 +720,7 @@ func c48Write(r *rep.Report, rnd *rand.Rand, path string, gitOK bool, gitDir str
 	sort.Slice(rows, func(i, j int) bool { return strings.Join(rows[i].V, ",") < strings.Join(rows[j].V, ",") })
 	budget := 100
 	if rep.Thorough() {
-		budget = 1500
+		budget = 600
 	}
 	gitPick := map[int]bool{}
 	for _, i := range rnd.Perm(len(rows)) {
